@@ -1208,6 +1208,9 @@ func TestVerifC27(t *testing.T) {
 		}
 	}
 
+	// ---- E1 part: concurrent header blocks (c27e1_verif_test.go)
+	c27headerConcurrency(t, r, srvs["A"])
+
 	// ---- family flushloop
 	fdepth := r.Pick(5, 7)
 	var fams []c27flushFam
